@@ -24,7 +24,7 @@ use vcore::rterm::{to_impl_data, RData};
 pub enum Fz {
     /// consumes exactly k bytes
     Fixed(usize),
-    /// first byte n mod 4, then n elements
+    /// first byte n mod 6, then n elements
     List,
     /// first byte even: one more byte; odd: two more bytes
     Branch,
@@ -46,7 +46,7 @@ pub enum Prop {
     NeverFails,
 }
 
-pub const FUZZERS: [Fz; 7] = [Fz::Fixed(1), Fz::Fixed(3), Fz::List, Fz::Branch, Fz::Constant, Fz::InvalidOn3, Fz::ListOfPairs];
+pub const FUZZERS: [Fz; 8] = [Fz::Fixed(1), Fz::Fixed(3), Fz::Fixed(5), Fz::List, Fz::Branch, Fz::Constant, Fz::InvalidOn3, Fz::ListOfPairs];
 pub const PROPS: [Prop; 6] = [Prop::SumGt(3), Prop::Contains(2), Prop::LenGe(2), Prop::Unsorted, Prop::AlwaysFails, Prop::NeverFails];
 
 /// generated value (list of bytes) and number of choices consumed; None = invalid
@@ -54,7 +54,7 @@ pub fn generate(f: Fz, c: &[u8]) -> Option<(Vec<u8>, usize)> {
     match f {
         Fz::Fixed(k) => (c.len() >= k).then(|| (c[..k].to_vec(), k)),
         Fz::List => {
-            let n = (*c.first()? % 4) as usize;
+            let n = (*c.first()? % 6) as usize;
             (c.len() > n).then(|| (c[1..=n].to_vec(), n + 1))
         }
         Fz::Branch => {
@@ -253,7 +253,7 @@ pub fn run(tier: Tier, replay: Option<String>) -> i32 {
         return replay_case(&p);
     }
     let mut run = Run::new("C16", tier);
-    let max_len = if tier == Tier::Quick { 5 } else { 7 };
+    let max_len = if tier == Tier::Quick { 6 } else { 8 };
     // work items: (fuzzer, property, start) for every sequence fully consumed by the fuzzer
     let mut items: Vec<(Fz, Prop, Vec<u8>)> = vec![];
     let seqs: Vec<Vec<Vec<u8>>> = (0..=max_len).map(sequences).collect();
@@ -312,7 +312,7 @@ pub fn run(tier: Tier, replay: Option<String>) -> i32 {
     run.set("traces_validated_against_impl", starts + queries + b.runs);
     run.set("evaluations", starts + hist + b.runs);
     run.set("distinct_nontrivial", finals.len() as u64 + b.distinct);
-    run.set("rule", "(a) every start state = choice sequence of length <= max over {0,1,2,3,255} that an abstract prefix-consuming fuzzer consumes entirely and on which the property fails, for 7 fuzzer shapes x 6 properties; the real simplify runs from each; invariants re-checked with uncached runs. (c) every sequence of cache queries up to the depth bound over 40 keys vs the uncached run. (b) compiled Aiken fuzzers x properties x every seed through the real PropertyTest::run vs an independent replay of the loop. distinct_nontrivial = distinct local minima + distinct (test, seed) outcomes");
+    run.set("rule", "(a) every start state = choice sequence of length <= max over {0,1,2,3,255} that an abstract prefix-consuming fuzzer consumes entirely and on which the property fails, for 8 fuzzer shapes x 6 properties; the real simplify runs from each; invariants re-checked with uncached runs. (c) every sequence of cache queries up to the depth bound over 40 keys vs the uncached run. (b) compiled Aiken fuzzers x properties x every seed through the real PropertyTest::run vs an independent replay of the loop. distinct_nontrivial = distinct local minima + distinct (test, seed) outcomes");
     run.assume("abstract fuzzers are prefix-consuming and deterministic, like every fuzzer built from the PRNG primitives (the cache relies on exactly that)");
     if starts < 1000 || improved == 0 || finals.len() < 5 {
         run.machinery_error("vacuous: too few start states / nothing was shrunk / fewer than 5 distinct minima");
